@@ -502,6 +502,19 @@ func oracleC08(op string, args []string) string {
 		if !bytes.Equal(mac, mac2) {
 			return "FAIL MAC is not deterministic"
 		}
+		// a returned MAC belongs to the caller: writing into it must not change any other result, earlier or later
+		keep := append([]byte{}, mac2...)
+		full := mac[:cap(mac)]
+		for i := range full {
+			full[i] ^= 0xff
+		}
+		if !bytes.Equal(mac2, keep) {
+			return "FAIL two returned MACs share memory (writing into one changed the other)"
+		}
+		mac3, _ := security.NASMacCalculate(uint8(a.alg), a.key, a.count, uint8(a.bearer), uint8(a.dir), p)
+		if !bytes.Equal(mac3, keep) {
+			return fmt.Sprintf("FAIL MAC changed after the caller wrote into an earlier result: %x, was %x", mac3, keep)
+		}
 		return "pass"
 	}
 	return skip
@@ -533,6 +546,29 @@ func init() {
 			return "err " + err.Error()
 		}
 		return "ok " + hexs(mac)
+	}
+	ops["szuclfsr"] = func(args []string) string {
+		if len(args) != 18 {
+			return "bad-op"
+		}
+		var v [18]uint64
+		for i := range args {
+			x, err := strconv.ParseUint(args[i], 10, 32)
+			if err != nil {
+				return "bad-op"
+			}
+			v[i] = x
+		}
+		var st [16]uint32
+		for i := range st {
+			st[i] = uint32(v[2+i])
+		}
+		r := zuc.VerifLfsrState(st, v[0] == 1, uint32(v[1]))
+		var out []string
+		for _, x := range r {
+			out = append(out, fmt.Sprint(x))
+		}
+		return "ok " + strings.Join(out, " ")
 	}
 	gens["secspec"] = genSecSpec
 }
@@ -621,5 +657,71 @@ func genSecSpec(g *Gen, w *bufio.Writer) {
 			fmt.Fprintf(w, "snea %d %s %d %d %d %s %d\n", alg, key(), uint32(g.U64()), g.Intn(32), g.Intn(2), hexs(data), n*8)
 			fmt.Fprintf(w, "snia %d %s %d %d %d %s %d\n", alg, key(), uint32(g.U64()), g.Intn(32), g.Intn(2), hexs(data), n*8)
 		}
+		// long payloads through the byte-length API: every power-of-two boundary of the bit length up to the largest NAS payload
+		long := []int{2047, 2048, 4095, 4096, 4097, 8191, 8192, 8193}
+		if g.Tier == "thorough" {
+			long = append(long, 12000, 16383, 16384, 32768, 65535)
+		}
+		for _, n := range long {
+			fmt.Fprintf(w, "snasenc %d %s %d %d %d %s\n", alg, key(), uint32(g.U64()), g.Intn(32), g.Intn(2), hexs(g.Bytes(n)))
+			// the bit-level 128-EIA3 specification is quadratic in the message length: long MAC inputs only for EIA1 / EIA2
+			if n <= 8193 && (alg != 3 || n <= 2048) {
+				fmt.Fprintf(w, "snasmac %d %s %d %d %d %s\n", alg, key(), uint32(g.U64()), g.Intn(32), g.Intn(2), hexs(g.Bytes(n)))
+			}
+		}
+		// messages with all-zero / all-one aligned blocks (64-bit for EIA1, 128-bit for EIA2, 32-bit words for EIA3): leading,
+		// interior, trailing, several in a row
+		for i := 0; i < 40; i++ {
+			nblk := 2 + g.Intn(6)
+			data := g.Bytes(8*nblk + []int{0, 0, 3, 8}[g.Intn(4)])
+			fill := byte(0)
+			if i%5 == 4 {
+				fill = 0xff
+			}
+			for k := 0; k < 1+g.Intn(2); k++ {
+				blk := g.Intn(nblk)
+				w8 := 8
+				if i%3 == 1 {
+					w8 = 16
+				}
+				for j := blk * 8; j < blk*8+w8 && j < len(data); j++ {
+					data[j] = fill
+				}
+			}
+			fmt.Fprintf(w, "snasmac %d %s %d %d %d %s\n", alg, key(), uint32(g.U64()), g.Intn(32), g.Intn(2), hexs(data))
+			fmt.Fprintf(w, "snia %d %s %d %d %d %s %d\n", alg, key(), uint32(g.U64()), g.Intn(32), g.Intn(2), hexs(data), len(data)*8)
+			fmt.Fprintf(w, "snasenc %d %s %d %d %d %s\n", alg, key(), uint32(g.U64()), g.Intn(32), g.Intn(2), hexs(data))
+		}
+	}
+	// ZUC LFSR step against its definition over GF(2^31-1): random in-range states and states steered into the residue
+	// class 0 (which the specification maps to 2^31-1), in both modes
+	const M = uint64(0x7fffffff)
+	rot := func(x uint64, k uint) uint64 { return (x << k) % M }
+	for i := 0; i < 300; i++ {
+		var c [16]uint64
+		for j := range c {
+			c[j] = g.U64()%M + 1
+			if g.Intn(8) == 0 {
+				c[j] = M
+			}
+		}
+		init, u := g.Intn(2), uint64(0)
+		if init == 1 {
+			u = g.U64() & 0x7fffffff
+		}
+		if i%3 != 2 {
+			// choose cell 4 so that the feedback sum is 0 mod 2^31-1: 2^20 * c4 = -(rest), and 2^-20 = 2^11
+			rest := (c[0] + rot(c[0], 8) + rot(c[10], 21) + rot(c[13], 17) + rot(c[15], 15) + u) % M
+			c4 := ((M - rest) % M << 11) % M
+			if c4 == 0 {
+				c4 = M
+			}
+			c[4] = c4
+		}
+		var cells []string
+		for _, x := range c {
+			cells = append(cells, fmt.Sprint(x))
+		}
+		fmt.Fprintf(w, "szuclfsr %d %d %s\n", init, u, strings.Join(cells, " "))
 	}
 }
